@@ -413,7 +413,7 @@ def run(ctx):
         "hypothesis of the theorems (Tidy): at most one OpMemoryModel (excluded by the property) and no OpFunctionParameter after the function's first OpLabel (recorded finding)",
         "instruction level (Props/C01Words.lean): the words parse_inst consumes for i and the words the assembler emits for i both satisfy InstWords i, and two such word lists agree in length, first word, result type/id and operand words, strings up to and including their NUL (32-bit words, word count below 65536, byte strings)"]
     return C.finish(ctx, level="proof", checker_cmd="lake build Rspirv.Props.C01All + #print axioms",
-                    rule="seeded modules over all core opcodes in layout order (must come back word-identical after the header), with whole sections permuted/interleaved (must come back as the stable partition), with garbage after string terminators (must come back zero padded); outputs loaded again; distinct non-trivial = distinct opcodes round-tripped",
+                    rule="seeded modules over all core opcodes in layout order (must come back word-identical after the header), with whole sections permuted/interleaved (must come back as the stable partition), with garbage after string terminators (must come back zero padded); outputs loaded again; strings of lengths around every power of two up to 4097 bytes; 64-bit literals one word short followed by one-word instructions; implementation only: instructions at the largest expressible sizes (65 535 words: strings up to 262 131 bytes, 65 533 struct members, 32 766 switch cases) must be accepted and come back word for word; distinct non-trivial = distinct opcodes round-tripped",
                     trusted=["hand models Loader/LoadBytes/Assemble/Module + differential harness (loadasm)", "instgen's independent encoder"])
 
 
